@@ -598,10 +598,16 @@ def _proxy_events(r, th, keys256):
                 rec(entry, fn, "mut", pos, v, dr[:pos] + bytes([v]) + dr[pos + 1:])
     sk = _mk_sk("NIST256p", keys256[0][1])
     dec = EccDecryptor(0, Prv(sk))
-    blk = dec.encrypt(bytes(range(16)))
-    if len(blk) != 81 or blk[0] != 4 or dec.decrypt(blk) != bytes(range(16)):
-        evs.append({"op": "proxy", "entry": "decrypt", "mk": "valid-block-not-decrypted", "pos": 0, "val": 0, "input": list(blk), "out": "none",
-                    "cls": "", "mro": [], "rraw": [], "rder": [], "pin": [], "pout": "", "pcls": "", "pmro": [], "praw": [], "pder": [], "_cost": 1})
+    blk, setup = b"", ("none", "", [])
+    try:
+        blk = dec.encrypt(bytes(range(16)))
+        if len(blk) == 81 and blk[0] == 4 and dec.decrypt(blk) == bytes(range(16)):
+            setup = None
+    except Exception as e:                                      # noqa: BLE001 -- encrypt/decrypt of a valid block failed: recorded
+        setup = ("raise", type(e).__name__, [k.__name__ for k in type(e).__mro__])
+    if setup is not None:
+        evs.append({"op": "proxy", "entry": "decrypt", "mk": "valid-block-not-decrypted", "pos": 0, "val": 0, "input": list(blk), "out": setup[0],
+                    "cls": setup[1], "mro": setup[2], "rraw": [], "rder": [], "pin": [], "pout": "", "pcls": "", "pmro": [], "praw": [], "pder": [], "_cost": 1})
     else:
         rec("decrypt", dec.decrypt, "valid", 0, 0, blk, crypto.create_public_ecc_key_from_raw_fmt, blk[1:65])
         for k in range(len(blk)):
@@ -766,14 +772,56 @@ def _model_checking(rep, tier, wd):
 
 
 # ------------------------------------------------------------------ the check
+def _library_site(e):
+    """'module.function (file:line)' of the innermost traceback frame if that frame is library code (also through the
+    RemoteTraceback text of a pool worker), None if the exception was raised by harness code."""
+    from ..common import REPO
+    txt = "".join(traceback.format_exception(type(e), e, e.__traceback__))
+    repo = os.path.realpath(REPO) + os.sep
+    for seg in re.split(r"\n(?:The above exception was the direct cause|During handling of the above exception)[^\n]*\n", txt):
+        frames = re.findall(r'File "([^"]+)", line (\d+), in (\S+)', seg)
+        if frames:
+            fn, ln, func = frames[-1]
+            if os.path.realpath(fn).startswith(repo):
+                return "%s.%s (%s:%s)" % (os.path.splitext(os.path.basename(fn))[0], func, os.path.relpath(os.path.realpath(fn), repo), ln)
+    return None
+
+
 def run(tier):
+    """The recording calls the library's encoders, key constructors and arithmetic on VALID input outside the judged
+    decoder calls as well; if one of those calls fails inside library code, that is a finding about the library
+    (reported as a violation naming class and site), not a tool failure."""
     rep = Report("C19", tier)
+    st = {}
+    with Scratch("c19") as wd:
+        try:
+            return _run(tier, rep, wd, st)
+        except MachineryError:
+            raise
+        except Exception as e:                                   # noqa: BLE001
+            site = _library_site(e)
+            if site is None:
+                raise
+            if "mc" in st:
+                try:
+                    st["mc"][1].result()
+                finally:
+                    st["mc"][0].shutdown(wait=True)
+            rep.violation("C19:valid-input:%s@%s" % (type(e).__name__, site.split(" ")[0]),
+                          "a library call on valid input made while recording failed: %s: %s, raised in %s" % (type(e).__name__, str(e)[:200], site),
+                          {"traceback": "".join(traceback.format_exception(type(e), e, e.__traceback__))[-3000:]})
+            rep.sample({"recording aborted by": type(e).__name__, "site": site})
+            rep.cov["explanation"] = "recording aborted by a failing library call on valid input; only the MC parts ran"
+            return rep
+
+
+def _run(tier, rep, wd, st):
     th = tier == "thorough"
     r = rng("c19")
     ecdsa, SigningKey, VerifyingKey, der, curves = _lib()
     import register_crypto_plugin as plugin
     ws = _ws_curves()
-    with Scratch("c19") as wd:
+    if True:
         ossl = Ossl(wd)
         p = subprocess.run([ossl.exe, "ecparam", "-list_curves"], capture_output=True, text=True, timeout=60)
         if p.returncode != 0:
@@ -786,6 +834,7 @@ def run(tier):
         pool = mp.Pool(16)
         mc_exec = cf.ThreadPoolExecutor(max_workers=1)
         mc_future = mc_exec.submit(_model_checking, rep, tier, wd)
+        st["mc"] = (mc_exec, mc_future)
         try:
             # ---------------- keys: random + leading-zero scalar / X / Y (found by search)
             nrand = 5 if th else 1
@@ -904,7 +953,8 @@ def run(tier):
                     continue
                 hdr_lib.append((kname, raw, dr, back0,
                                 ossl.add(["ec", "-pubin", "-inform", "DER", "-in", "@in", "-pubout", "-outform", "DER"], data=dr)))
-                vk = VerifyingKey.from_der(dr)
+                from register_crypto_plugin.ecdsa.ellipticcurve import Point as _Point
+                vk = VerifyingKey.from_public_point(_Point(p256.curve, x, y), p256)
                 for pe in ("uncompressed", "compressed", "hybrid"):
                     for cpe in ("named_curve", "explicit"):
                         alt = vk.to_der(point_encoding=pe, curve_parameters_encoding=cpe)
@@ -949,13 +999,17 @@ def run(tier):
                     _, k, jt, jp = job
                     tpriv, tpub = _parse_text(ossl.get(jt, True, "text")[1].decode(), 32, 32)
                     od = ossl.get(jp, True, "pubout")[1]
-                    obj = plugin.PublicEccKeyProxy.create_from_raw_fmt(tpub)
+                    try:
+                        obj = plugin.PublicEccKeyProxy.create_from_raw_fmt(tpub)
+                        odr, oback = list(obj.to_der_fmt()), list(obj.to_raw_bin_fmt())
+                    except Exception:                       # noqa: BLE001 -- a valid raw key refused: recorded, rejected by the spec
+                        odr, oback = [], []
                     try:
                         back2 = list(plugin.PublicEccKeyProxy.create_from_der_fmt(od).to_raw_bin_fmt())
                     except Exception:
                         back2 = []
-                    kev.append({"op": "hdr", "src": "openssl key %d" % k, "raw": list(tpub), "der": list(obj.to_der_fmt()),
-                                "back": list(obj.to_raw_bin_fmt()), "ossl": list(od), "back2": back2, "_cost": 20})
+                    kev.append({"op": "hdr", "src": "openssl key %d" % k, "raw": list(tpub), "der": odr,
+                                "back": oback, "ossl": list(od), "back2": back2, "_cost": 20})
                     continue
                 cname, kind, cpe, pe, jt, j1, j2 = job
                 c = _curve(cname)
